@@ -1330,6 +1330,61 @@ def _inline_hoisted(fn, rf, log, q):
     ast.fix_missing_locations(fn)
 
 
+def _dissolve_built_locals(fn, rf, log, q):
+    """`X = D; X[i] = ...; T = X`  ->  `T = D; T[i] = ...` for a local X the
+    reference does not know (a container built in a local and stored)."""
+    ref_locs = set(rf.get('locals', []))
+    for _ in range(10):
+        params, locs = local_order(fn)
+        done = False
+        for x in locs:
+            if x in ref_locs:
+                continue
+            h = _single_assign(fn, x)
+            if h is None:
+                continue
+            blk, i, st = h
+            finals = [(k, s_) for k, s_ in enumerate(blk) if k > i and
+                      isinstance(s_, ast.Assign) and len(s_.targets) == 1
+                      and isinstance(s_.value, ast.Name)
+                      and s_.value.id == x
+                      and isinstance(s_.targets[0], (ast.Subscript,
+                                                     ast.Attribute))]
+            if len(finals) != 1:
+                continue
+            k, fin = finals[0]
+            tgt = fin.targets[0]
+            # X is not used after the final store, and only in this block
+            uses = [n for n in _own_nodes(fn) if isinstance(n, ast.Name)
+                    and n.id == x]
+            inside = {id(n) for s_ in blk[i:k + 1] for n in ast.walk(s_)}
+            if any(id(n) not in inside for n in uses):
+                continue
+            # operands of T are not re-bound in between
+            ops = _names(tgt)
+            if any(isinstance(n, ast.Name) and isinstance(n.ctx, ast.Store)
+                   and n.id in ops for s_ in blk[i:k] for n in ast.walk(s_)):
+                continue
+
+            class RT(ast.NodeTransformer):
+                def visit_Name(self, node):
+                    if node.id == x:
+                        new = copy.deepcopy(tgt)
+                        new.ctx = type(node.ctx)()
+                        return ast.copy_location(new, node)
+                    return node
+            for j in range(i, k):
+                blk[j] = RT().visit(blk[j])
+            del blk[k]
+            log.append('%s: container built in local %s dissolved into %s'
+                       % (q, x, _n(tgt)))
+            done = True
+            break
+        if not done:
+            break
+    ast.fix_missing_locations(fn)
+
+
 def _rehoist(fn, rf, log, q):
     """Re-introduce recorded single-definition lookup locals that the
     current function spells out (the inverse of hoisting)."""
@@ -1598,6 +1653,7 @@ def canonicalise(tree, modname, text=None):
         _unroll_literal_loops(fn, rf, log, q)
         _orient_ifs(fn, rf, log, q)
         _loops_to_reference(fn, rf, log, q)
+        _dissolve_built_locals(fn, rf, log, q)
         _temps_and_names(fn, rf, log, q)
         _rehoist(fn, rf, log, q)
         _orient_ifs(fn, rf, log, q)
